@@ -147,29 +147,6 @@ theorem eq_of_upper {A B : M3 K} (hA : A.transpose = A) (hB : B.transpose = B) (
   · rw [ha1, hb1]; exact h3
   · rw [ha2, hb2]; exact h4
   · rw [ha5, hb5]; exact h5
-theorem lower_eq_upper {A : M3 K} (h : A.transpose = A) : lower A = upper A := by
-  obtain ⟨a00,a01,a02,a10,a11,a12,a20,a21,a22⟩ := A
-  simp only [M3.transpose, M3.mk.injEq] at h
-  obtain ⟨-,h1,h2,-,-,h5,-,-,-⟩ := h
-  simp only [lower, upper, h1, h2, h5]
-theorem lamTau_symm (F L : M3 K) {S R : M3 K} (hS : S.transpose = S) (hR : R.transpose = R) :
-    (lamTau F S L R).transpose = lamTau F S L R := by
-  obtain ⟨s00,s01,s02,s10,s11,s12,s20,s21,s22⟩ := S
-  obtain ⟨r00,r01,r02,r10,r11,r12,r20,r21,r22⟩ := R
-  simp only [M3.transpose, M3.mk.injEq] at hS hR
-  obtain ⟨-,hs1,hs2,-,-,hs5,-,-,-⟩ := hS
-  obtain ⟨-,hr1,hr2,-,-,hr5,-,-,-⟩ := hR
-  subst hs1 hs2 hs5 hr1 hr2 hr5
-  m3_poly
-theorem lamSig_symm (F L : M3 K) {S R : M3 K} (hS : S.transpose = S) (hR : R.transpose = R) :
-    (lamSig F S L R).transpose = lamSig F S L R := by
-  obtain ⟨s00,s01,s02,s10,s11,s12,s20,s21,s22⟩ := S
-  obtain ⟨r00,r01,r02,r10,r11,r12,r20,r21,r22⟩ := R
-  simp only [M3.transpose, M3.mk.injEq] at hS hR
-  obtain ⟨-,hs1,hs2,-,-,hs5,-,-,-⟩ := hS
-  obtain ⟨-,hr1,hr2,-,-,hr5,-,-,-⟩ := hR
-  subst hs1 hs2 hs5 hr1 hr2 hr5
-  m3_poly
 theorem conj_symm {G Y : M3 K} (hY : Y.transpose = Y) : (G * Y * G.transpose).transpose = G * Y * G.transpose := by
   rw [transpose_mul, transpose_mul, hY, ← m3_mul_assoc]
   obtain ⟨a00,a01,a02,a10,a11,a12,a20,a21,a22⟩ := G
